@@ -64,7 +64,9 @@ fn hdr(r: &Raw) -> Hdr {
     }
 }
 
-/// PLtoTF §110-§113 `seven_unsafe`, computed on the TFM arrays: a seven-bit character whose lig/kern
+/// PLtoTF §110-§113 `seven_unsafe`, computed on the TFM arrays. PLtoTF sets it only while checking a
+/// character c < 128 (`if (c<128) and ...`): the left-boundary program (c = 256) and the programs of
+/// characters >= 128 are never walked for it. Unsafe = a seven-bit character whose lig/kern
 /// program inserts an eight-bit character next to a seven-bit one, whose NEXTLARGER is an eight-bit
 /// character, or whose extensible recipe has an eight-bit piece.
 fn seven_bit_safe(r: &Raw) -> bool {
@@ -1009,6 +1011,47 @@ fn write_tfm_with(p: &Prog, sw: u32, extra: Option<&[u32]>, raw_lk: Option<(&[[u
     out
 }
 
+/// A minimal hand-written TFM: characters (code, tag, remainder) of width 1.0, a lig/kern array, extensible
+/// recipes and the seven-bit-safe byte given verbatim.
+fn simple_tfm(chars: &[(u8, u8, u8)], lk: &[[u8; 4]], exten: &[[u8; 4]], sbs: u8) -> Vec<u8> {
+    let bc = chars.iter().map(|c| c.0).min().unwrap_or(1) as usize;
+    let ec = chars.iter().map(|c| c.0).max().unwrap_or(0) as usize;
+    let nk = if lk.is_empty() { 0 } else { 1 };
+    let lf = 6 + 18 + (ec + 1 - bc) + 2 + 1 + 1 + 1 + lk.len() + nk + exten.len() + 2;
+    let mut out: Vec<u8> = vec![];
+    for v in [lf, 18, bc, ec, 2, 1, 1, 1, lk.len(), nk, exten.len(), 2] {
+        out.extend((v as u16).to_be_bytes());
+    }
+    let mut hb = vec![0u8; 72];
+    hb[0..4].copy_from_slice(&[0x0a, 0x0b, 0x0c, 0x0d]);
+    hb[4..8].copy_from_slice(&(10i32 << 20).to_be_bytes());
+    hb[8] = 4;
+    hb[9..13].copy_from_slice(b"TEST");
+    hb[48] = 3;
+    hb[49..52].copy_from_slice(b"ABC");
+    hb[68] = sbs;
+    out.extend(&hb);
+    for c in bc..=ec {
+        match chars.iter().find(|x| x.0 as usize == c) {
+            Some((_, tag, rem)) => out.extend([1, 0, *tag, *rem]),
+            None => out.extend([0; 4]),
+        }
+    }
+    out.extend([0, 0, 0, 0, 0, 0x10, 0, 0]); // widths 0, 1.0
+    out.extend([0u8; 12]); // height, depth, italic
+    for w in lk {
+        out.extend(w);
+    }
+    if nk == 1 {
+        out.extend([0, 1, 0, 0]);
+    }
+    for e in exten {
+        out.extend(e);
+    }
+    out.extend([0, 4, 0, 0, 0, 8, 0, 0]); // two parameters
+    out
+}
+
 // ------------------------------------------------------------------ corpus
 
 fn corpus() -> Vec<(String, Vec<u8>)> {
@@ -1373,6 +1416,54 @@ fn main() {
             },
         );
     }
+    // (vii) hand-written TFMs: extensible recipes with absent pieces; seven-bit-safe flag x 8-bit insertions
+    ctx.family(
+        "tfm-varchar-sevenbit",
+        "hand-written TFM files: a VARCHAR recipe with every subset of {TOP, MID, BOT} absent x character sets with and without character 0 (16 fonts); seven-bit-safe byte 0/128 x left-boundary program inserting an 8-bit glyph from a 7-bit right character yes/no x program of the 7-bit character A doing the same yes/no x program of the 8-bit character doing so yes/no (16 fonts)",
+        32,
+        |i, acc| {
+            let before = acc.nontrivial;
+            let b = if i < 16 {
+                let with0 = i & 8 != 0;
+                let piece = |bit: u64| if i & bit != 0 { 65u8 } else { 0u8 };
+                let mut chars = vec![(65u8, 0u8, 0u8), (66, 0, 0), (67, 3, 0)];
+                if with0 {
+                    chars.push((0, 0, 0));
+                }
+                simple_tfm(&chars, &[], &[[piece(1), piece(2), piece(4), 66]], 0)
+            } else {
+                let j = i - 16;
+                let (flag, lb_prog, a_prog, hi_prog) = (j & 1 != 0, j & 2 != 0, j & 4 != 0, j & 8 != 0);
+                let mut lk: Vec<[u8; 4]> = vec![];
+                let mut chars = vec![(65u8, 0u8, 0u8), (66, 0, 0), (0xC6, 0, 0), (0xC7, 0, 0)];
+                if a_prog {
+                    chars[0] = (65, 1, lk.len() as u8);
+                    lk.push([128, 66, 0, 0xC6]); // A B -> LIG 0xC6
+                }
+                if hi_prog {
+                    chars[2] = (0xC6, 1, lk.len() as u8);
+                    lk.push([128, 66, 0, 0xC7]); // 0xC6 B -> LIG 0xC7 (an 8-bit left character: never unsafe)
+                }
+                if lb_prog {
+                    let at = lk.len() as u8;
+                    lk.push([128, 65, 0, 0xC6]); // boundary A -> LIG 0xC6
+                    lk.push([255, 0, 0, at]);
+                }
+                simple_tfm(&chars, &lk, &[], if flag { 128 } else { 0 })
+            };
+            check_tfm(i, &b, &|| json!({"kind": "tfm-varchar-sevenbit", "i": i}), acc);
+            if acc.nontrivial > before {
+                if i < 16 && i & 7 != 7 && i & 8 == 0 {
+                    acc.count("varchar_absent_piece_without_character_0_checked");
+                }
+                if i >= 16 && (i - 16) & 2 != 0 && (i - 16) & 4 == 0 {
+                    acc.count("boundary_program_inserts_8bit_glyph_in_otherwise_safe_font_checked");
+                }
+            }
+        },
+    );
+    ctx.require("varchar_absent_piece_without_character_0_checked", "a warning-free hand-written TFM with an extensible recipe that lacks a piece, in a font without character 0");
+    ctx.require("boundary_program_inserts_8bit_glyph_in_otherwise_safe_font_checked", "a warning-free hand-written TFM whose left-boundary program inserts an 8-bit glyph while no 7-bit character does");
     ctx.require("restart_word_inside_skip_window_checked", "a warning-free hand-written TFM in which a SKIP jumps over a restart word");
     ctx.require("redirect_table_with_restart_word_checked", "a warning-free hand-written TFM with restart words in a small lig/kern array");
     ctx.require("trailing_zero_header_word_original_vs_canonical", "an original TFM whose last extra header word is zero compared with its canonical file");
